@@ -712,7 +712,11 @@ func (c *Ctx) havocLoopTargets(env *Env, st *State, nodes []ast.Node) {
 					continue
 				}
 			}
-			st.heap[k] = c.fresh("H'"+k, fmt.Sprintf("(Array Int %s)", c.heapSorts[k]))
+			ks := c.heapKeySorts[k]
+			if ks == "" {
+				ks = "Int"
+			}
+			st.heap[k] = c.fresh("H'"+k, fmt.Sprintf("(Array %s %s)", ks, c.heapSorts[k]))
 		}
 	}
 	// a loop that receives from channels extends the ghost receive history
